@@ -79,7 +79,7 @@ def generate(seed, tier):
     x = r.random()
     # "ioerror": the disk fails once inside commit() (EIO, or ENOSPC with a short write) and the
     # process dies somewhere on the error path or right after commit() raised
-    mode = "kill" if x < 0.25 else ("ioerror" if x < 0.4 else "enumerate")
+    mode = "kill" if x < 0.25 else ("ioerror" if x < 0.45 else "enumerate")
     fr = random.Random("%s/front" % seed)
     if fr.random() < 0.15:
         # "anywhere in a writer's life", for the BufferedWriter front-end: a sequence of calls with
@@ -106,6 +106,11 @@ def generate(seed, tier):
                     "iofault": {"skip": r.randint(0, 60), "errno": r.choice(("EIO", "ENOSPC")),
                                 "kinds": r.choice((["write"], ["write", "creat"], ["write", "creat", "rename"], ["rename"], ["unlink"])),
                                 "short": r.random() < 0.5, "tx": r.randint(1, 4)},
+                    "after_error": random.Random("%s/after_error" % seed).choice(("die", "cancel", "cancel")),
+                    # 35% of the disk faults are placed in the clean-up that follows the TOC rename (the removal of
+                    # superseded files and of the scratch directory): the commit is published and then raises
+                    "post_publish": random.Random("%s/post_publish" % seed).random() < 0.35,
+                    "post_kinds": random.Random("%s/post_kinds" % seed).choice((["rmdir"], ["rmdir"], ["unlink", "rmdir"])),
                     "kill_at": r.random(), "tear": r.choice(("none", "all", "mixed")),
                     "recover_merge": r.choice(("none", "default", "optimize"))}
     return rec
@@ -353,8 +358,15 @@ def execute_enum(record, trace=False):
                 st = {"skip": iof["skip"]}
                 task = s.k.current
 
+                post = bool(crash.get("post_publish"))
+                if post:
+                    st["skip"] = (st["skip"] % 4) if "unlink" in crash.get("post_kinds", ()) else 0
+
                 def plan(kind, name):
-                    if kind not in iof["kinds"] or s.k.current is not task or "WRITELOCK" in name:
+                    if post:
+                        if ctx["phase"] != "commit_post_rename" or kind not in crash.get("post_kinds", ("unlink", "rmdir")) or s.k.current is not task:
+                            return None
+                    elif kind not in iof["kinds"] or s.k.current is not task or "WRITELOCK" in name:
                         return None
                     if st["skip"] > 0:
                         st["skip"] -= 1
@@ -378,6 +390,18 @@ def execute_enum(record, trace=False):
             ctx["phase"] = "commit_failed"
             stats["commit_failed_by_iofault"] = stats.get("commit_failed_by_iofault", 0) + 1
             capture("commit() raised %s after %s" % (type(exc).__name__, ctx["fired"]))
+            if crash.get("after_error") == "cancel" and actor.w is not None:
+                # the application's usual handler: "except: writer.cancel()" - whatever the failed commit
+                # had already published must stay readable, whatever it had not must stay invisible
+                ctx["phase"] = "cancel_after_failed_commit"
+                try:
+                    actor.w.cancel()
+                except (SimAbort, SimKilled, HarnessError):
+                    raise
+                except Exception:  # noqa
+                    pass
+                stats["cancel_after_failed_commit"] = stats.get("cancel_after_failed_commit", 0) + 1
+                capture("cancel() after the failed commit() returned")
             return True
 
         def after_commit(actor, probe_only=False):
@@ -432,7 +456,7 @@ def execute_enum(record, trace=False):
     mx = crash.get("max_states", 40)
     if total > mx:
         srng = random.Random("%s/sample" % record["seed"])
-        weights = [(200.0 if c[7] == "commit_failed" else 30.0 if c[7] == "commit_error_path" else 12.0 if c[7] == "commit_post_rename"
+        weights = [(200.0 if c[7] in ("commit_failed", "cancel_after_failed_commit") else 30.0 if c[7] == "commit_error_path" else 12.0 if c[7] == "commit_post_rename"
                     else 3.0 if c[7] in ("commit", "cancel") else 1.0)
                    for c in captured]
         chosen = set()
